@@ -184,7 +184,7 @@ def run_plan(plan):
     if plan["config"] == "stub":
       if gs.missing or not fired:
         raise Inconclusive("stub_not_reached" if not gs.missing else "seam_missing")
-      cov["faults_fired"] += 1
+      cov["glasso_stub_fired"] += 1
       cov["fault_" + plan["fault"]] += 1
       nontrivial = True
       if outcome != "exc:RuntimeError":
